@@ -235,7 +235,7 @@ pub fn check_parse(text: &str, entry: Entry, acc: &mut ParseAcc) {
 pub const FULL: &[&str] = &[
     "a", "1", "1.5", "\"s\"", "'c'", "if ", "else ", "while ", "loop ", "switch ", "in ",
     "distinct ", "mut ", "extern ", "struct ", "enum ", "comptime ", "return ", "break ",
-    "continue ", "defer ", "+", "-", "*", "<", "!", "&&", "||", "=", "==", ",", ".", "...", "?",
+    "continue ", "defer ", "as ", "+", "-", "*", "<", "!", "&&", "||", "=", "==", ",", ".", "...", "?",
     "->", "=>", "^", "`", "(", ")", "[", "]", "{", "}", ":", ";", "#", " ", "\n", "//c\n",
 ];
 
